@@ -85,7 +85,7 @@ Mutations == {"truncate-at-field", "truncate-inside-field", "unknown-type", "len
               "length-65535", "length-2^31", "length-2^32-1", "count-inconsistent", "path-too-long", "path-traversal",
               "index-ge-total", "chunk-length-0", "chunk-length-gt-chunksize", "duplicate-begin", "end-for-unknown-file",
               "request-for-unknown-file", "wrong-direction-record", "end-with-files-missing", "bad-magic", "crc-mismatch",
-              "garbage-json", "chunksize-0", "chunksize-0-empty-file", "chunksize-huge", "filedone-twice", "begin-after-done", "count-consistent-huge"}
+              "garbage-json", "chunksize-0", "chunksize-0-empty-file", "chunksize-huge", "filedone-twice", "begin-after-done", "count-consistent-huge", "item-without-id"}
 \* which mutations make sense where
 Applies(stage, t, m) ==
   CASE m \in {"truncate-at-field", "truncate-inside-field"} -> TRUE
@@ -101,7 +101,7 @@ Applies(stage, t, m) ==
     [] m = "request-for-unknown-file" -> t = "ResumeRequest"
     [] m = "wrong-direction-record" -> stage \in {"perfile", "acks"}
     [] m = "end-with-files-missing" -> t = "End"
-    [] m \in {"bad-magic", "garbage-json"} -> t = "Header"
+    [] m \in {"bad-magic", "garbage-json", "item-without-id"} -> t = "Header"
     [] OTHER -> FALSE
 AllTypesC15 == Types \cup {"Header", "ChunkFrame", "CreditBatch"}
 
